@@ -3,7 +3,7 @@ CONSTANTS
   Dirs = {"launch", "a", "b"}
   Launch = "launch"
   MaxConns = 3
-  OneShot = FALSE
+  OneShot = TRUE
   Fix_RestoreOneShot = TRUE
   Fix_RestorePerConnection = TRUE
 INVARIANT TypeOK
